@@ -359,6 +359,66 @@ theorem hist_value_is_state_at (t0 : Rat) (v : SVar) (h : Knots) (t : Rat) (hh :
   simp only [signedHist, Bool.false_eq_true, if_false]
   rw [C19.interp_scalar_early_exit_agrees v.mode hm h hs nanFill nanFill t hne]
 
+/-! ## the receiving variable named through an alias -/
+
+/-- **The alias sign multiplies the receiving variable, not the row**: naming the receiving variable
+    by a negated alias negates `x_in` only; the delayed value and the row scaling are untouched, so
+    the row is `(-y - delayed) / nominal` and NOT `-(y - delayed) / nominal`. -/
+theorem negated_alias_sign_on_target (d : DelayProb) (k : Nat) (hk : k < d.ts.length) :
+    ({ d with outNeg := true } : DelayProb).yAt k = (({ d with outNeg := false } : DelayProb).yAt k).neg
+    ∧ ({ d with outNeg := true } : DelayProb).delayedAt k = ({ d with outNeg := false } : DelayProb).delayedAt k
+    ∧ ({ d with outNeg := true } : DelayProb).nominal = ({ d with outNeg := false } : DelayProb).nominal
+    ∧ ({ d with outNeg := true } : DelayProb).rows.getD k .raise
+        = (((({ d with outNeg := false } : DelayProb).yAt k).neg).sub
+            (({ d with outNeg := false } : DelayProb).delayedAt k)).divBy ({ d with outNeg := false } : DelayProb).nominal := by
+  refine ⟨rfl, rfl, rfl, ?_⟩
+  rw [(rows_spec ({ d with outNeg := true } : DelayProb)).2 k hk]
+  rfl
+
+/-- **The row set does not depend on how the receiving variable is named**: if the decision vector
+    also carries a column `j'` holding the negated values of the receiving column (same grid, nominal
+    and interpolation mode: the value of a negated alias is `sign * canonical value`), then naming the
+    receiving variable by that column with the opposite sign yields exactly the same delay rows. -/
+theorem rows_invariant_negated_alias (d : DelayProb) (j' : Nat) (cv cv' : ColVar)
+    (hc : d.mp.cols[d.out]? = some cv) (hc' : d.mp.cols[j']? = some cv')
+    (ht : cv'.sv.times = cv.sv.times) (hn : cv'.sv.nominal = cv.sv.nominal)
+    (hm : cv'.sv.mode = cv.sv.mode) (hx : cv'.sv.xs = cv.sv.xs.map (- ·)) :
+    ({ d with out := j', outNeg := !d.outNeg } : DelayProb).rows = d.rows := by
+  have e1 : d.mp.cols.getD d.out ⟨⟨0, [], [], 0, none, none⟩, 0⟩ = cv := by
+    simp [List.getD_eq_getElem?_getD, hc]
+  have e2 : d.mp.cols.getD j' ⟨⟨0, [], [], 0, none, none⟩, 0⟩ = cv' := by
+    simp [List.getD_eq_getElem?_getD, hc']
+  have hsg : sgn (!d.outNeg) = - sgn d.outNeg := by cases d.outNeg <;> simp [sgn]
+  have hy : ∀ k, ({ d with out := j', outNeg := !d.outNeg } : DelayProb).yAt k = d.yAt k := by
+    intro k
+    show applySign (!d.outNeg) ((d.mp.cols.getD j' ⟨⟨0, [], [], 0, none, none⟩, 0⟩).valueAt d.ts k)
+      = applySign d.outNeg ((d.mp.cols.getD d.out ⟨⟨0, [], [], 0, none, none⟩, 0⟩).valueAt d.ts k)
+    rw [e1, e2, applySign_eq_scale, applySign_eq_scale, hsg]
+    unfold ColVar.valueAt SVar.knots
+    rw [ht, hn, hm, hx]
+    by_cases h : cv.sv.times.length = d.ts.length
+    · simp only [h, if_true, Res.scale_num, getD_map_neg]
+      congr 1; ring
+    · simp only [h, if_false]
+      have hmap : cv.sv.xs.map (- ·) = cv.sv.xs.map ((-1 : Rat) * ·) := by
+        apply List.map_congr_left; intro x _; ring
+      rw [hmap, zip_map_scale, interpSym_scale, Res.scale_scale, Res.scale_scale, Res.scale_scale]
+      congr 1; ring
+  have hmode : ({ d with out := j', outNeg := !d.outNeg } : DelayProb).outMode = d.outMode := by
+    show (d.mp.cols.getD j' ⟨⟨0, [], [], 0, none, none⟩, 0⟩).sv.mode
+      = (d.mp.cols.getD d.out ⟨⟨0, [], [], 0, none, none⟩, 0⟩).sv.mode
+    rw [e1, e2, hm]
+  have hdel : ∀ k, ({ d with out := j', outNeg := !d.outNeg } : DelayProb).delayedAt k = d.delayedAt k := by
+    intro k
+    rw [delayedAt_spec, delayedAt_spec, hmode]
+    rfl
+  unfold DelayProb.rows
+  show (List.range d.ts.length).map _ = _
+  apply List.map_congr_left
+  intro k _
+  rw [hy k, hdel k]
+  rfl
+
 /-! ## Non-vacuity -/
 
 /-- one state `x` (nominal 2) and the receiving algebraic variable `y` on the grid 0, 1, 2;
@@ -389,6 +449,23 @@ example : (exD 5 [(-2, .num 1), (-1, .num 3), (0, .num 2)]).incomplete = true
 example : (exD (3/2) [(-2, .num 1), (-1, .num 3), (0, .num 2)]).nominal = 7
     ∧ (exD (3/2) [(-2, .num 1), (-1, .num 3), (0, .num 2)]).rows
         = [.num (-2/7), .num (-5/14), .num (-3/7)] := by decide +kernel
+
+/-- `exD` with a third column `z` carrying the negated values of the receiving variable `y` -/
+def exDn (neg : Bool) (out : Nat) : DelayProb :=
+  { mp := ⟨0, [0, 1, 2],
+           [⟨⟨2, [0, 1, 2], [1, 2, 4], 0, none, some (1, 0)⟩, 0⟩, ⟨⟨1, [0, 1, 2], [5, 6, 7], 0, none, none⟩, 0⟩,
+            ⟨⟨1, [0, 1, 2], [-5, -6, -7], 0, none, none⟩, 0⟩],
+           [], [], []⟩,
+    hists := [some [(-2, .num 1), (-1, .num 3), (0, .num 2)], none, none],
+    allHistTimes := [[-2, -1, 0]],
+    expr := ⟨1, [(3, [.state 0])]⟩, out := out, outNeg := neg, tau := ⟨3/2, []⟩ }
+
+-- naming the receiving variable by the negated alias (column 2, sign -1) gives the rows of (column 1, +1);
+-- naming the canonical variable with the sign -1 gives other rows, and they are not the negated rows
+example : (exDn true 2).rows = (exDn false 1).rows
+    ∧ (exDn false 1).rows = [.num (-2/7), .num (-5/14), .num (-3/7)]
+    ∧ (exDn true 1).rows = [.num (-12/7), .num (-29/14), .num (-17/7)]
+    ∧ (exDn true 1).rows ≠ (exDn false 1).rows.map Res.neg := by decide +kernel
 
 -- simulation: tau = 3/4, dt = 1/2 -> two buffer entries, weight 1/2
 example : bufLen (3/4) (1/2) = 2 ∧ weight (3/4) (1/2) = 1/2
